@@ -21,7 +21,8 @@ func readLocalSymbolTable(r Reader, cat Catalog) (SymbolTable, error) {
 			return nil, err
 		}
 		if fieldName == nil || fieldName.Text == nil {
-			return nil, fmt.Errorf("ion: field name is nil")
+			// A field whose name has no text is open content like any other unrecognized field.
+			continue
 		}
 
 		switch *fieldName.Text {
@@ -112,7 +113,8 @@ func readImport(r Reader, cat Catalog) (SharedSymbolTable, error) {
 			return nil, err
 		}
 		if fieldName == nil || fieldName.Text == nil {
-			return nil, fmt.Errorf("ion: field name is nil")
+			// A field whose name has no text is open content like any other unrecognized field.
+			continue
 		}
 
 		switch *fieldName.Text {
